@@ -49,6 +49,22 @@ def _reduced_return(f):
 def _strip_none_guard(e):
     """`X if c else None` / `None if c else X`  ->  (X, c or not-c text); anything else -> (e, None)"""
     guards = []
+    # `<empty-case> if X is S else X` with X = max(G, default=S): the maximum of G, with a value for the empty case
+    if isinstance(e, ast.IfExp) and isinstance(e.test, ast.Compare) and len(e.test.ops) == 1 and isinstance(e.test.ops[0], (ast.Is, ast.IsNot)):
+        x_arm, other = (e.orelse, e.body) if isinstance(e.test.ops[0], ast.Is) else (e.body, e.orelse)
+        s_txt = norm(e.test.comparators[0])
+        if isinstance(x_arm, ast.Call) and norm(x_arm.func) in ("max", "min") and norm(e.test.left) == norm(x_arm) and any(k.arg == "default" and norm(k.value) == s_txt for k in x_arm.keywords):
+            import copy as _copy
+
+            e = _copy.deepcopy(x_arm)
+            e.keywords = [k for k in e.keywords if k.arg != "default"]
+            guards.append("default")
+    if isinstance(e, ast.Call) and norm(e.func) in ("max", "min") and any(k.arg == "default" and isinstance(k.value, ast.Constant) and k.value.value is None for k in e.keywords):
+        import copy as _copy
+
+        e = _copy.deepcopy(e)
+        e.keywords = [k for k in e.keywords if k.arg != "default"]
+        guards.append("default")
     while isinstance(e, ast.IfExp) and any(isinstance(a, ast.Constant) and a.value is None for a in (e.body, e.orelse)):
         none_first = isinstance(e.body, ast.Constant) and e.body.value is None
         guards.append(canon(e.test))
@@ -117,7 +133,7 @@ def r04_1(ctx: Ctx):
                 st, why = VIOLATION, f"takes min() of `{src}`: the worst individual in the problem's direction"
             elif any(k.arg == "key" for k in core.keywords):
                 st, why = VIOLATION, "takes max() with a key: the direction-aware order of individuals is bypassed"
-            elif src == f"{sn}.all_individuals" and all(g in (f"{sn}.all_individuals", f"not{sn}.all_individuals", f"len({sn}.all_individuals)>0", f"len({sn}.all_individuals)==0", f"len({sn}.all_individuals)") for g in guards):
+            elif src == f"{sn}.all_individuals" and all(g in (f"{sn}.all_individuals", f"not{sn}.all_individuals", f"len({sn}.all_individuals)>0", f"len({sn}.all_individuals)==0", f"len({sn}.all_individuals)", "default") for g in guards):
                 st = OK
             elif src in (f"{sn}.current_population", f"{sn}._history[-1][-1]", f"{sn}.history[-1]") or src.startswith((f"{sn}.all_individuals[", f"{sn}.history[", f"{sn}._history[")) or " if " in norm(core.args[0]):
                 st, why = VIOLATION, f"takes the maximum of `{src}`: not the deme's complete history"
@@ -306,11 +322,20 @@ def r04_5(ctx: Ctx, need: str = "keep-offspring"):
     rdefs = local_defs(run)
     rets = [r for r in body_walk(run.node) if isinstance(r, ast.Return)]
     v = rets[0].value if len(rets) == 1 else None
-    ok = isinstance(v, ast.Call) and isinstance(v.func, ast.Attribute) and v.func.attr == "to_individuals" and isinstance(v.func.value, ast.Call) and norm(v.func.value.func) == f"{run.self_name()}.select_new_population" and [norm(a) for a in v.func.value.args] == ["parent_population", "offspring_population"] if v is not None else False
+    sel = v.func.value if isinstance(v, ast.Call) and isinstance(v.func, ast.Attribute) and v.func.attr == "to_individuals" and isinstance(v.func.value, ast.Call) else None
+    ok = sel is not None and norm(sel.func) == f"{run.self_name()}.select_new_population" and len(sel.args) == 2 and all(isinstance(a, ast.Name) for a in sel.args) and not sel.keywords
+    Pn, On = (sel.args[0].id, sel.args[1].id) if ok else (None, None)
+    if ok:
+        pd = rdefs.get(Pn, [])
+        run_params = [p_ for p_ in run.params() if p_ != run.self_name()]
+        ok = len(pd) == 1 and isinstance(pd[0], ast.Call) and norm(pd[0].func) == "Population.from_individuals" and len(pd[0].args) == 1 and run_params and norm(pd[0].args[0]) == run_params[0]
     obs.append(ctx.ob("R04.5", run, rets[0] if rets else run.node, status=OK if ok else INCONCLUSIVE, detail="run() returns the selection of (parents, final offspring)" if ok else f"BaseSEA.run returns `{norm(v)[:80] if v is not None else '?'}`", construct="sea-run"))
     # pipeline loop threads the offspring through every operator
     loops = [n for n in run.node.body if isinstance(n, ast.For)]
-    okl = len(loops) == 1 and canon(loops[0].iter) == f"{run.self_name()}.variational_operators_pipeline" and len(loops[0].body) == 1 and isinstance(loops[0].body[0], ast.Assign) and canon(loops[0].body[0]) == f"offspring_population={norm(loops[0].target)}(offspring_population)"
+    okl = bool(ok) and len(loops) == 1 and canon(loops[0].iter) == f"{run.self_name()}.variational_operators_pipeline" and len(loops[0].body) == 1 and isinstance(loops[0].body[0], ast.Assign) and canon(loops[0].body[0]) == f"{On}={norm(loops[0].target)}({On})"
+    if okl:
+        od = [d for d in rdefs.get(On, []) if d is not loops[0].body[0].value]
+        okl = len(od) == 1 and canon(od[0]) in (f"{Pn}.copy()", f"copy.deepcopy({Pn})")
     obs.append(ctx.ob("R04.5", run, loops[0] if loops else run.node, status=OK if okl else INCONCLUSIVE, detail="every operator is applied in order to the running offspring" if okl else "the operator pipeline is not applied in order to one running offspring population", construct="sea-pipeline-loop"))
     # only the last operator evaluates
     summ = c02.operator_summaries(ctx)
